@@ -7,6 +7,7 @@ import (
 	"errors"
 	"fmt"
 	"os"
+	"runtime"
 	"sort"
 	"strings"
 	"sync"
@@ -27,26 +28,26 @@ import (
 
 // SendRec is one call of ConvergenceSender.Send observed at a mock convergence layer.
 type SendRec struct {
-	Step    int    `json:"step"`
-	AtMs    uint64 `json:"at_ms"` // virtual DTN time of the call
-	Peer    string `json:"peer"`
-	ID      string `json:"id"`  // bundle ID as transmitted
-	PID     string `json:"pid"` // payload id ("" for bundles not made by the harness)
-	OK      bool   `json:"ok"`  // outcome reported to the node
-	CallNo  int64  `json:"call_no"` // global order of Send calls ...
-	RetNo   int64  `json:"ret_no"`  // ... and returns (one counter for both)
-	Bytes   []byte `json:"-"`
-	Bundle  model.Bundle `json:"-"`
-	ParseErr string `json:"parse_err,omitempty"` // the node emitted bytes its own parser rejects
+	Step     int          `json:"step"`
+	AtMs     uint64       `json:"at_ms"` // virtual DTN time of the call
+	Peer     string       `json:"peer"`
+	ID       string       `json:"id"`      // bundle ID as transmitted
+	PID      string       `json:"pid"`     // payload id ("" for bundles not made by the harness)
+	OK       bool         `json:"ok"`      // outcome reported to the node
+	CallNo   int64        `json:"call_no"` // global order of Send calls ...
+	RetNo    int64        `json:"ret_no"`  // ... and returns (one counter for both)
+	Bytes    []byte       `json:"-"`
+	Bundle   model.Bundle `json:"-"`
+	ParseErr string       `json:"parse_err,omitempty"` // the node emitted bytes its own parser rejects
 }
 
 // Delivery is one bundle handed to a mock application agent.
 type Delivery struct {
-	Step  int    `json:"step"`
-	Agent string `json:"agent"`
-	ID    string `json:"id"`
-	PID   string `json:"pid"`
-	Bytes []byte `json:"-"`
+	Step   int          `json:"step"`
+	Agent  string       `json:"agent"`
+	ID     string       `json:"id"`
+	PID    string       `json:"pid"`
+	Bytes  []byte       `json:"-"`
 	Bundle model.Bundle `json:"-"`
 }
 
@@ -267,6 +268,11 @@ type Peer struct {
 	Outcome func(b *bpv7.Bundle, rec *SendRec) error
 	// Gate, when non-nil, parks every Send until the harness closes or feeds the channel.
 	Gate chan struct{}
+	// IDSpin makes GetPeerEndpointID yield the processor that many times before it answers: a slow (but never
+	// blocking) lookup that widens whatever window the caller has open while it asks for the peer's ID.
+	IDSpin int
+	// OnIDLookup, when non-nil, is called at the start of every GetPeerEndpointID (on the caller's goroutine).
+	OnIDLookup func()
 }
 
 var peerSerial int
@@ -468,11 +474,19 @@ func (p *Peer) Close() error {
 }
 
 func (p *Peer) Channel() chan cla.ConvergenceStatus { return p.ch }
-func (p *Peer) Address() string                      { return p.addr }
-func (p *Peer) IsPermanent() bool                    { return false }
-func (p *Peer) GetPeerEndpointID() bpv7.EndpointID   { return p.EID }
-func (p *Peer) GetEndpointID() bpv7.EndpointID       { return p.sim.NodeID }
-func (p *Peer) String() string                       { return p.addr }
+func (p *Peer) Address() string                     { return p.addr }
+func (p *Peer) IsPermanent() bool                   { return false }
+func (p *Peer) GetPeerEndpointID() bpv7.EndpointID {
+	if f := p.OnIDLookup; f != nil {
+		f()
+	}
+	for i := 0; i < p.IDSpin; i++ {
+		runtime.Gosched()
+	}
+	return p.EID
+}
+func (p *Peer) GetEndpointID() bpv7.EndpointID { return p.sim.NodeID }
+func (p *Peer) String() string                 { return p.addr }
 
 // Send serialises the bundle inside the call like the real convergence layers do.
 func (p *Peer) Send(b bpv7.Bundle) error {
@@ -507,8 +521,10 @@ func (p *Peer) Send(b bpv7.Bundle) error {
 }
 
 // Fail makes every Send fail; OK makes every Send succeed.
-func (p *Peer) Fail() { p.Outcome = func(*bpv7.Bundle, *SendRec) error { return errors.New("scripted failure") } }
-func (p *Peer) OK()   { p.Outcome = nil }
+func (p *Peer) Fail() {
+	p.Outcome = func(*bpv7.Bundle, *SendRec) error { return errors.New("scripted failure") }
+}
+func (p *Peer) OK() { p.Outcome = nil }
 
 // Sends returns all Send calls observed so far.
 func (s *Sim) Sends() []SendRec {
@@ -577,7 +593,7 @@ func (a *Agent) loop() {
 	}
 }
 
-func (a *Agent) Endpoints() []bpv7.EndpointID      { return a.eids }
+func (a *Agent) Endpoints() []bpv7.EndpointID        { return a.eids }
 func (a *Agent) MessageReceiver() chan agent.Message { return a.rx }
 func (a *Agent) MessageSender() chan agent.Message   { return a.tx }
 
